@@ -312,3 +312,12 @@ Definition x_tx2 : tx :=
 (* spends the first output of x_tx1 (owner w_out1) inside the same block *)
 Definition x_tx3 : tx :=
   mkTx x_hash2 true [mkIn (outkey w_hash 0) w_out1 true] [mkOut 4 w_out2 0; mkOut 4 w_owner 0] [] 21800 true true.
+
+Lemma tracking_invariant :
+  (forall l : ledger, sorted l -> view_ok (view_of true l))
+  /\ (forall c (b b' : bst (S:=view)) t r,
+        view_ok (b_store b) -> process_qi view_store c b t = Ok (b', r) -> view_ok (b_store b')).
+Proof.
+  split; [exact view_of_ok|]. intros c b b' t r Hv H.
+  destruct (process_qi_view_spec _ _ _ _ _ Hv H) as (_ & Hv' & _). exact Hv'.
+Qed.
